@@ -157,6 +157,7 @@ fam(ScenarioFamily('late_fwd', ('C07',), gen.late_fwd_scenario, 200, 2000))
 fam(ScenarioFamily('late_on', ('C01', 'C09', 'C11', 'C03'), gen.late_on_scenario, 300, 3000))
 fam(EnumFamily('fwdback_timeout_enum', ('C10', 'C08'), gen.fwdback_base, gen.fwdback_derive, 6, 100, 40, 150))
 fam(ScenarioFamily('odd_timeout', ('C01', 'C03', 'C09', 'C11'), gen.odd_timeout_scenario, 300, 3000))
+fam(ScenarioFamily('rehydrated', ('C08',), gen.rehydrated_scenario, 250, 2500))
 fam(ScenarioFamily('manual_step', ('C06',), gen.manual_step_scenario, 150, 1500))
 fam(EnumFamily('double_cancel_enum', ('C06', 'C10', 'C02'), gen.double_cancel_base, gen.double_cancel_derive, 8, 120, 40, 150))
 fam(EnumFamily('waitfor_enum', ('C15',), gen.waitfor_base, gen.waitfor_derive, 16, 200, 40, 120))
@@ -424,6 +425,8 @@ CHECKS['C06'].families.append('manual_step')
 CHECKS['C08'].families.append('fwdback_timeout_enum')
 CHECKS['C02'].families.append('capacity')  # bursts that fill the bounded queue: order among accepted events, rejected ones aside
 CHECKS['C07'].families.append('late_fwd')
+CHECKS['C05'].families.append('spawn')  # what a stale fire-and-forget task left behind must not let unrelated work into a later await
+CHECKS['C08'].families.append('rehydrated')  # event objects rebuilt from dumps of finished events, dispatched again; children observed when the parent's processing ends
 for _p in ('C01', 'C03', 'C09', 'C11'):
     CHECKS[_p].families.append('odd_timeout')  # generous timeouts on long-lived event objects; zero / negative timeouts
 CHECKS['C02'].families.append('stop_enum')  # another bus stopped / cleared while this one is mid-handler: order and one-at-a-time must not depend on it
@@ -437,19 +440,20 @@ _ALSO = {
     'C02': 'timeout programs (handlers that need time to unwind, forwards to a second bus, blocking sync siblings); the F1 exception applies only when the bus\'s own run loop had taken the overtaken event; stop() programs (another bus stopped / cleared mid-handler)',
     'C03': 'handlers registered late, events awaited by several parties, deep fire-and-forget chains under tiny history limits, zero / negative / never-expiring event timeouts',
     'C04': 'children awaited through asyncio.gather helper tasks, awaited twice / by siblings / although dispatched by top-level code, explicit parents',
-    'C05': 'stop() programs with long in-handler awaits; every dequeue records whether the drain\'s awaited event was already complete (F0 covers only entries taken before that)',
+    'C05': 'stop() programs with long in-handler awaits; every dequeue records whether the drain\'s awaited event was already complete (F0 covers only entries taken before that); fire-and-forget tasks that outlive their handler and await when everything is idle, followed by two-bus traffic',
     'C07': 're-dispatch of the same object to the same and to other buses (reach set and path re-evaluated), buses created under one requested name, forwarding under small history limits',
-    'C08': 'every complete event re-observed and awaited from a SECOND event loop after the first one was closed; accessor calls on completed events; timeout programs',
+    'C08': 'every complete event re-observed and awaited from a SECOND event loop after the first one was closed; accessor calls on completed events; timeout programs; event objects rebuilt from dumps of finished events and dispatched again, children observed when the parent\'s processing ends',
     'C09': 'events dispatched from the cancellation clean-up of timed-out handlers, explicit parents, handlers registered late, event objects constructed before the program starts and dispatched by a handler later',
     'C10': 'forwards to a second (parallel) bus, blocking sync siblings (deadline window, delivery delayed by blocking stretches), clean-up dispatch, user-raised TimeoutError, zero / negative timeouts (events count as touched: must complete with TimeoutError results)',
-    'C11': 'typed events with returned exceptions; unhashable / two-argument / chained exception objects; raise instants enumerated against a sibling\'s awaited child',
+    'C11': 'typed events with returned exceptions; unhashable / two-argument / chained exception objects; raise instants enumerated against a sibling\'s awaited child; falsy exception objects (__len__ 0 / __bool__ False)',
+    'C12': 'falsy and two-argument exception objects raised and returned; result types declared by a subclass of an already instantiated typed parent class',
     'C13': 'forwarded in-flight events under small limits, handler-less events',
     'C14': 'stop() programs (dispatch to a stopping / stopped bus from handlers, forwards and actors); an event not in the queue when dispatch() returns counts as dropped',
     'C15': 'timeout programs, in-handler awaits bounded by asyncio.wait_for placed at every instant, two concurrent callers (one leaving early); callers still blocked after W silent seconds are recorded before the harness probes',
     'C16': 'stop(clear=True), double and two-bus stops, stop() from inside handlers, parallel buses, asyncio.Runner exit, raw cancellation of the run-loop task between the thread hand-offs of its own WAL append',
     'C17': 'payloads without a JSON encoding (non-UTF-8 bytes, arbitrary objects, lone surrogates) count as failing writes',
-    'C19': 'timeout=None; 2-4 overlapping calls of one decorated function / method, each against its own timetable',
-    'C20': 'an unrelated class with the same __name__, a second function naming the same semaphore, 70 instance-scoped keys, cancellation k loop iterations after the victim\'s own acquisition instant with the load probe due',
+    'C19': 'timeout=None; 2-4 overlapping calls of one decorated function / method, each against its own timetable; exception texts with braces, percent signs and control characters',
+    'C20': 'an unrelated class with the same __name__, a second function naming the same semaphore, 70 instance-scoped keys, cancellation k loop iterations after the victim\'s own acquisition instant with the load probe due; caller instances that compare equal and hash alike (value objects)',
 }
 for _p, _t in _ALSO.items():
     CHECKS[_p].rule += ' | added later: ' + _t
